@@ -288,7 +288,7 @@ def rule_drive(ctx, M, rule):
     b = ent["drive"]
     bi = M.info(b)
     where = b.def_
-    sends = costream.send_points(bi)
+    sends = costream.send_points(bi, M)
     flushes = costream.flush_points(bi)
     # every send is consumer.send(ready(item)) with item = a Some payload of the source
     probs = []
@@ -302,7 +302,7 @@ def rule_drive(ctx, M, rule):
         probs.append("no Some(item) edge found")
     claimed = set()
     for edges, payload, what in item_edges:
-        mine = [s for s in sends if s.arg(1) is not None and s.arg(1)[0] == "call" and s.arg(1)[1][1] == "ready" and s.arg(1)[2] and s.arg(1)[2][0] == payload]
+        mine = [s for s in sends if s.item_future is not None and s.item_future[0] == "call" and s.item_future[1][1] == "ready" and s.item_future[2] and s.item_future[2][0] == payload]
         if len(mine) != 1:
             probs.append("item from %s is sent %d times (expected exactly once)" % (what, len(mine)))
             continue
